@@ -294,3 +294,7 @@ def run(ctx):
     round6.check_cpu_prv_types_vs_cfg(ctx, "R5.7")
     round6.share(ctx, "R5.7", "C13", lambda i_: i_["rule"] == "R13.2" and i_["inst"].startswith("cpu-affinity"), "affinity-label:",
                  "each thread's CPU value is labelled with another CPU's name", 1)
+    ctx.rule("R5.8", "a thread that is moved shows its new CPU whatever its state: thread_set_cpu / thread_migrate_cpu "
+             "publish the CPU's global index on every accepting path, for an active and for a paused thread")
+    from rules import round4
+    round4.check_affinity_value_is_gindex(ctx, "R5.8")
